@@ -757,7 +757,9 @@ impl Gen {
         }
         let sc = D::parse(&price).map(|d| d.s).unwrap_or(0);
         let unit = 10u128.pow(sc.min(30));
-        let mut size = match self.rng.below(10) {
+        let mut size = match self.rng.below(11) {
+            // one to three units: price improvement below a unit, fee shares that round to nothing
+            10 => 1 + self.rng.below(3) as u128,
             0..=3 => m,
             4..=6 => {
                 let k = m / unit;
